@@ -222,7 +222,7 @@ CLAIMED["C17"] = dict(
     "(C17_attribute_actions_bound: per node pair |attrs l| + |attrs x|, a renamed attribute is not deleted afterwards; the "
     "attributes of nodes whose partner is unvisited are a potential every visit pays from); every action other than a move changes the document value "
     "(C17_non_move_actions_change: payload lists in document order differ before and after every insert, delete, rename, text, "
-    "tail and attribute action of the replay). PARTIAL: 'every move changes the document' is false of the code (R1) and, with the "
+    "tail and attribute action of the replay); no node is renamed twice and no text or tail is set twice (C17_each_node_changed_once). PARTIAL: 'every move changes the document' is false of the code (R1) and, with the "
     "rest of that clause, decided per run: a strict replay in the Lean interpreter that flags any action leaving the id-tree or the "
     "document value unchanged, and on namespaced pairs a replay with the real patcher. Known finding R1 (moves past "
     "value-identical siblings).",
